@@ -1,6 +1,7 @@
 package main
 
 import (
+	"encoding/hex"
 	"bytes"
 	"crypto"
 	stded "crypto/ed25519"
@@ -228,6 +229,16 @@ func runSign() {
 					all = append(all, doSign(seed, p, r.Bytes(n)))
 				}
 			}
+		}
+	}
+
+	// ---- rare internal values (found once with the standard library, see cmd/rarehunt): signing inputs whose nonce or whose
+	// r + h*a sits on a limb boundary that random inputs reach with probability about 2^-28 ---
+	if prop == "C02" || prop == "C03" || prop == "" {
+		for _, f := range rareFixtures {
+			seed, _ := hex.DecodeString(f.seed)
+			msg, _ := hex.DecodeString(f.msg)
+			all = append(all, doSign(seed, pairs[0], msg))
 		}
 	}
 
